@@ -386,12 +386,16 @@ def make_client(kind, **kw):
     """kind: tcp | rtu-over-tcp | ascii-over-tcp | binary-over-tcp | udp | rtu | ascii | binary"""
     from pymodbus.transaction import ModbusRtuFramer, ModbusAsciiFramer, ModbusBinaryFramer
     kw.setdefault('timeout', 1)
+    if not kind.endswith('-over-tcp'):
+        kw.pop('framer_subclass', None)
     if kind == 'tcp':
         return _cs.ModbusTcpClient('10.0.0.1', 502, **kw)
     if kind == 'udp':
         return _cs.ModbusUdpClient('10.0.0.1', 502, **kw)
     if kind.endswith('-over-tcp'):
         fr = {'rtu': ModbusRtuFramer, 'ascii': ModbusAsciiFramer, 'binary': ModbusBinaryFramer}[kind.split('-')[0]]
+        if kw.pop('framer_subclass', False):
+            fr = type('Site' + fr.__name__, (fr,), {})          # an application's own subclass of the library framer
         return _cs.ModbusTcpClient('10.0.0.1', 502, framer=fr, **kw)
     return _cs.ModbusSerialClient(method=kind, port='/dev/ttyV0', baudrate=kw.pop('baudrate', 9600), **kw)
 
